@@ -13,6 +13,9 @@ use serde_json::{json, Value};
 
 use crate::core::ctx::{Ctx, Tier};
 
+#[global_allocator]
+static GLOBAL: crate::core::alloc::Counting = crate::core::alloc::Counting;
+
 pub struct CheckDef {
     pub id: &'static str,
     pub level: &'static str,
